@@ -210,3 +210,8 @@ Definition opts_ok_argparse (o : sync_opts) : bool :=
   | _ :: _, Ok (Some (_ :: _)) => true
   | _, _ => false
   end.
+
+(* a statement  return (a, b, ...)  -- the only statement for which parse.argparse_ast looks at the text of the
+   docstring constant itself (_parse_return) *)
+Definition is_tuple_return (s : stmt) : bool :=
+  match s with SReturn (Some (ETuple _)) => true | _ => false end.
